@@ -76,6 +76,10 @@ theorem lagSum_expand {k : ℕ} (xs ys : Fin k → K) :
   refine Finset.prod_congr rfl (fun j _ => ?_)
   by_cases h : j = i <;> simp [h]
 
+/-- distinct x values: every difference the formulas divide by is non-zero -/
+theorem sub_ne_zero_of_injective {k : ℕ} (xs : Fin k → K) (hinj : Function.Injective xs) (i j : Fin k) (h : i ≠ j) :
+    xs i - xs j ≠ 0 := sub_ne_zero.mpr (fun e => h (hinj e))
+
 /-- one grid: the value itself -/
 theorem lagSum_one (xs ys : Fin 1 → K) : lagSum xs ys = ys 0 := by
   rw [lagSum_expand]; simp
